@@ -231,6 +231,12 @@ def run(ctx):
             ctx.ok("ESCP-2", cb.path + ":maps chars() of each stored string through the escaper", None, cb.loc())
         else:
             ctx.violation("ESCP-2", (cb.path, "char map"), "the non-ASCII pass does not map str::chars() through the per-character escaper", cb.loc())
+    literal_printer_escapes(ctx, lib, S)
+
+
+def literal_printer_escapes(ctx, lib, S):
+    """ESCP-2 (b): every literal printer (a body that applies the symbol escaper S and prints graphemes) escapes on every path before printing, and forwards the
+    Literal's two flags in order.  Shared with C01/C02/C07: a path that skips the escaper prints metacharacters raw."""
     # (b) the literal printer escapes on every path, with the Literal's flags
     printers = [b for b in lib.bodies if b.kind in ("closure", "fn", "assoc_fn") and b is not S and any(callee_name(t) == S.path for _, t in b.calls())
                 and any((callee_name(t) or "").endswith("to_string") for _, t in b.calls())]
@@ -289,6 +295,7 @@ def run(ctx):
                     ctx.violation("ESCP-2", (pb.path, "flag order"), "escape/surrogate flags reach the escaper as (%s, %s)" % (local.show(o1), local.show(o2)), pb.loc(t.get("line")))
             else:
                 ctx.violation("ESCP-2", (pb.path, "flag source"), "escaper flags are %s, %s" % (local.show(a1), local.show(a2)), pb.loc(t.get("line")))
+
 
 
 def all_callees(lib, b, depth=0, seen=None):
